@@ -261,6 +261,20 @@ fn c10_increment_try_new() {
     assert!(r.is_ok() == (v >= 1 && v <= 1_000_000_000));
     if let Ok(inc) = r { assert!(inc.get() == v); }
 }
+/// RoundingIncrement::try_from(f64): a finite value whose integer part lies in 1..=1e9 is accepted as that integer part;
+/// everything else (NaN, infinities, below 1, above 1e9) is a RangeError
+/// (the contract Verus assumes for it in unit timecore: inc_of_f64)
+#[kani::proof]
+fn c10_increment_try_from_f64() {
+    let v: f64 = kani::any();
+    let r = RoundingIncrement::try_from(v);
+    let accepted = v.is_finite() && v >= 1.0 && v < 1_000_000_001.0;
+    assert!(r.is_ok() == accepted);
+    match r {
+        Ok(inc) => { let g = inc.get() as f64; assert!(g <= v && v < g + 1.0); assert!(inc.get() >= 1 && inc.get() <= 1_000_000_000); }
+        Err(e) => assert!(e.kind() == crate::error::ErrorKind::Range),
+    }
+}
 /// validate(dividend, inclusive) = within and dividing, for the maxima of Temporal's unit table
 #[kani::proof]
 fn c10_increment_validate_small() {
